@@ -9,7 +9,7 @@
     cand = what precedes the element named by [before] in E1 (all of E1 if there is none). *)
 From Coq Require Import List ZArith String Bool Permutation Sorted.
 From Thunder Require Import Lib.Json Pagination.Model Pagination.ProofsSlice Pagination.ProofsSort
-  Pagination.ProofsWalk Pagination.ProofsPage Pagination.ProofsFilter Pagination.Base64
+  Pagination.ProofsFilterImpl Pagination.ProofsWalk Pagination.ProofsPage Pagination.ProofsFilter Pagination.Base64
   Pagination.ProofsMain.
 Import ListNotations.
 Open Scope list_scope.
@@ -51,6 +51,13 @@ Theorem walk_backward_partition :
                      c_total c = total_count cfg l a) pages.
 Proof. exact ProofsMain.walk_backward_partition. Qed.
 Print Assumptions walk_backward_partition.
+
+Theorem walk_backward_fuel_suffices :
+  forall enc, injective enc ->
+  forall cfg l a k fuel, NoDup (map n_key l) -> sort_ok cfg a -> (0 < k)%Z -> List.length l < fuel ->
+  walk_backward_from enc fuel cfg l a k None = walk_backward enc cfg l a k.
+Proof. exact ProofsMain.walk_backward_fuel_suffices. Qed.
+Print Assumptions walk_backward_fuel_suffices.
 
 (** Accepted arguments always give a page; an unregistered sort field or rejected first/last give an
     error (for a non-empty list; the empty list returns the empty connection before any check). *)
@@ -230,14 +237,30 @@ Theorem element_passes_filter_iff :
   In n l /\
   (a_ftext a = None \/ a_ftext a = Some EmptyString \/
    exists t f, a_ftext a = Some t /\
-     In f (cfg_ff cfg) /\ (forall fs, a_ffields a = Some fs -> In f fs) /\
-     default_match (lookup_def EmptyString f (n_texts n)) (tokens t) = true).
+     In f (cfg_ff cfg) /\ (forall fs, a_ffields a = Some fs -> In (ff_name f) fs) /\
+     default_match (lookup_def EmptyString (ff_attr f) (n_texts n)) (tokens t) = true).
 Proof.
   exact (fun cfg l a n =>
            iff_trans (apply_text_filter_spec cfg l a n)
                      (and_iff_compat_l (In n l) (node_filter_spec cfg a n))).
 Qed.
 Print Assumptions element_passes_filter_iff.
+
+(** applyTextFilter as written (three runners - plain, expensive, batched - filling three keep-arrays
+    that are or-ed) keeps exactly the elements for which some selected field matches ... *)
+Theorem filter_runners_agree :
+  forall cfg l a, apply_text_filter cfg l a = filter (node_filter cfg a) l.
+Proof. exact apply_text_filter_eq. Qed.
+Print Assumptions filter_runners_agree.
+
+(** ... so how the filter fields are implemented (plain, expensive, batch, batch-with-fallback, and
+    whichever way the fallback switch points) does not change what passes. *)
+Theorem filter_field_implementation_is_irrelevant :
+  forall ffs ffs' sf sf' ub ub' l a,
+  map (fun f => (ff_name f, ff_attr f)) ffs = map (fun f => (ff_name f, ff_attr f)) ffs' ->
+  apply_text_filter (mk_cfg ffs sf ub) l a = apply_text_filter (mk_cfg ffs' sf' ub') l a.
+Proof. exact filter_impl_irrelevant. Qed.
+Print Assumptions filter_field_implementation_is_irrelevant.
 
 (** The default match: no token at all, or some non-empty token occurs in the text, ignoring case. *)
 Theorem default_match_is_case_insensitive_substring :
@@ -276,7 +299,9 @@ Print Assumptions walk_forward_partition_base64.
 
 (** * Non-vacuity: a list, arguments and walks that meet the hypotheses *)
 
-Definition ex_cfg : config := mk_cfg ["t0"%string] ["n0"%string; "s0"%string].
+Definition ex_cfg : config :=
+  mk_cfg [mk_ff "t0_batch" "t0" IBatch; mk_ff "t0_fb" "t0" IFallback; mk_ff "t1_exp" "t1" IExpensive]%string
+         ["n0"%string; "s0"%string] false.
 Definition ex_node (k t : string) (n : Z) (s : string) : node :=
   mk_node k (JStr k) [("t0"%string, t)] [("n0"%string, SInt n); ("s0"%string, SStr s)].
 Definition ex_list : list node :=
